@@ -1,6 +1,7 @@
 package main
 
 import (
+	"os"
 	"fmt"
 	"go/constant"
 	"go/token"
@@ -39,6 +40,9 @@ func (c *SCtx) fail(f string, a ...interface{}) *Val {
 }
 
 func (ex *Exec) specErr(msg string) {
+	if ex.specWhere != "" {
+		msg = ex.specWhere + ": " + msg
+	}
 	for _, m := range ex.specErrs {
 		if m == msg {
 			return
@@ -981,6 +985,15 @@ func (ex *Exec) goalCtx(fr *Frame, cur, old *State, env map[string]*Val) *SCtx {
 // the frame's current block: its declaring block must dominate the current block; among several
 // (shadowing, reuse of a name in sibling scopes) the innermost one wins, then the most recently executed.
 func (fr *Frame) latestAlloc(name string) *ssa.Alloc {
+	if os.Getenv("GOCV_DBGNAME") == name {
+		for _, a := range fr.byName[name] {
+			cb := -1
+			if fr.curBlock != nil {
+				cb = fr.curBlock.Index
+			}
+			fmt.Fprintf(os.Stderr, "latestAlloc(%s): alloc in block %d executed=%v cur=%d dom=%v\n", name, a.Block().Index, fr.allocs[a] != nil, cb, fr.curBlock != nil && a.Block().Dominates(fr.curBlock))
+		}
+	}
 	var best *ssa.Alloc
 	for _, a := range fr.byName[name] {
 		if fr.allocs[a] == nil {
